@@ -3,6 +3,7 @@
 package json
 
 import (
+	"bytes"
 	"unsafe"
 
 	"github.com/goccy/go-json/internal/verifref"
@@ -13,6 +14,7 @@ func init() {
 	VerifHarnesses["H_C15_keys"] = H_C15_keys
 	VerifHarnesses["H_C07_array_neighbours"] = H_C07_array_neighbours
 	VerifHarnesses["H_C12_alias"] = H_C12_alias
+	VerifHarnesses["H_C12_stream_alias"] = H_C12_stream_alias
 	VerifHarnesses["H_C04_roundtrip"] = H_C04_roundtrip
 	VerifHarnesses["H_C05_skipped_member"] = H_C05_skipped_member
 }
@@ -328,4 +330,36 @@ func H_C05_skipped_member(t *verifrt.T) {
 	t.Assert("known-member-decoded", verifrt.Implies(verifrt.And(strict, accepted), v.A == 1))
 	t.Cover("accepted-valid", verifrt.And(accepted, strict))
 	t.Cover("rejected", !accepted)
+}
+
+// ---------------------------------------------------------------- C12 stream: earlier results survive later Decode calls
+
+// two string documents on one stream: the first decoded string must keep its
+// bytes after the second Decode (the stream buffer is reused/reset in between),
+// and neither may alias the reader's data.
+func H_C12_stream_alias(t *verifrt.T) {
+	n := t.Param("N")
+	a := t.Bytes("a", n)
+	b := t.Bytes("b", n)
+	for i := 0; i < n; i++ {
+		t.Assume(verifrt.And(a[i] >= 'a', a[i] <= 'z', b[i] >= 'a', b[i] <= 'z'))
+	}
+	doc := append([]byte{'"'}, a...)
+	doc = append(doc, '"', ' ', '"')
+	doc = append(doc, b...)
+	doc = append(doc, '"', '\n')
+	src := append([]byte{}, doc...)
+	dec := NewDecoder(bytes.NewReader(doc))
+	var s1, s2 string
+	err1 := dec.Decode(&s1)
+	keep := string(append([]byte{}, s1...))
+	err2 := dec.Decode(&s2)
+	t.Assert("both-decoded", verifrt.And(err1 == nil, err2 == nil))
+	t.Assert("first-value", keep == string(a))
+	t.Assert("first-result-unchanged-by-second-decode", s1 == keep)
+	t.Assert("second-value", s2 == string(b))
+	t.Assert("reader-data-unchanged", verifref.BytesEq(doc, src))
+	var v interface{}
+	err3 := dec.Decode(&v)
+	t.Assert("then-eof", err3 != nil)
 }
